@@ -52,6 +52,21 @@ def gen_cases(tier, rng):
             cases.append({"n_intf": n_intf, "workers": 1, "steps": 25 if quick else 80, "seed": seed, "schedule": None,
                           "moves": (["sh"] * n_intf) if seed % 2 else (["sh", "sh"] + ["wf"] * (n_intf - 2))[:n_intf],
                           "kind": "single"})
+    # fewer steps (left) than workers: fresh short runs, and stops that leave fewer steps than workers
+    # for the restarted segment (REPEX_state.initiate then starts fewer jobs than there are workers)
+    for w in (2, 3, 4):
+        for n_intf in range(w + 1, 7):
+            for steps in range(1, w):
+                for seed in range(5 if quick else 16):
+                    cases.append({"n_intf": n_intf, "workers": w, "steps": steps, "seed": 1000 + seed, "moves": ["sh"] * n_intf,
+                                  "schedule": [rng.randint(0, w - 1) for _ in range(steps)], "kind": "short",
+                                  "init_reach": [0] + [rng.randint(i, n_intf) for i in range(1, n_intf)]})
+            for d in range(1, w):
+                for seed in range(2 if quick else 8):
+                    steps = w + 5
+                    cases.append({"n_intf": n_intf, "workers": w, "steps": steps, "seed": 2000 + seed, "moves": ["sh"] * n_intf,
+                                  "schedule": [rng.randint(0, w - 1) for _ in range(steps)], "stops": [steps - d], "kind": "short-restart",
+                                  "init_reach": [0] + [rng.randint(i, n_intf) for i in range(1, n_intf)]})
     # deep random runs, more ensembles/workers, caps, multi-engine, restarts
     nrand = 110 if quick else 1200
     for i in range(nrand):
@@ -72,6 +87,9 @@ def gen_cases(tier, rng):
                 case["stops"].append(rng.randint(1, steps - k1 - w - 1))
         if rng.random() < 0.3:
             case["delete_old"] = True
+        if rng.random() < 0.5:
+            # initial paths that reach further than their own interface: swaps from the first pick on
+            case["init_reach"] = [0] + [rng.randint(i, n_intf) for i in range(1, n_intf)]
         cases.append(case)
     return cases
 
@@ -392,7 +410,7 @@ def run_case(case):
             kw["extra_engine"] = extra
             kw["ensemble_engines"] = [[names[i % k]] for i in range(case["n_intf"])]
         H.write_setup(wd, n_intf=case["n_intf"], moves=case["moves"], workers=case["workers"], steps=case["steps"],
-                      seed=case["seed"], cap=case.get("cap"), delete_old=case.get("delete_old", False), **kw)
+                      seed=case["seed"], cap=case.get("cap"), delete_old=case.get("delete_old", False), init_reach=case.get("init_reach"), **kw)
         stops = list(case.get("stops", []))
         sched = list(case["schedule"] or [])
         n = case["n_intf"] + 1
